@@ -342,7 +342,7 @@ impl Engine for C02 {
     }
     fn runs(&self, tier: Tier) -> u64 {
         match tier {
-            Tier::Quick => 30_000,
+            Tier::Quick => 50_000,
             Tier::Thorough => 400_000,
         }
     }
